@@ -9,12 +9,20 @@ Streams (three-way, DESIGN 5.C02)
   oracle   the property itself: the class of the run-time value is among the definitions infer
            reports and points at the statement that created it; in programs without conditionals
            infer reports exactly that class
+  bind     argument-to-parameter binding: the REAL get_executed_param_names_and_issues (run
+           in-process on a FunctionValue / TreeArguments obtained the way jedi obtains them) vs
+           Model.ArgBind.bindJ - exact, every parameter, every issue - on ALL small signatures x
+           ALL small calls (accepted by CPython or not) and random larger ones
+  bindpy   CPython itself (a real function returning its locals is called) vs Model.ArgBind.bindPy,
+           exact, TypeError <-> none, on the same inputs - validates the specification
+  argbind  the direct oracle on argument binding: run the program, Script.infer on every
+           parameter / element of *args / value of **kwargs; functions, methods, lambdas
 """
 import common
 from common import short
 from gen import pycore as P
 
-MODELS = ['PyCore']
+MODELS = ['PyCore', 'ArgBind']
 LEAN_TARGETS = ['JediModel.Props.C02', 'JediModel.Drivers.C02']
 MANIFEST = dict(
     text='Theorem may_sound_partial over Model/PyCore: for every program of the pure core (literals, names, tuples, '
@@ -27,7 +35,16 @@ MANIFEST = dict(
          'is false (kernel-checked witness, replayed on the real code). Both interpreters share one fuel-indexed '
          'skeleton; induction on fuel. '
          'Tie: jedi = mayE (exact, modulo the API-level merge of a class with its instance) and CPython = evalC '
-         '(exact, nested shapes) on generated programs.',
+         '(exact, nested shapes) on generated programs. '
+         'Argument binding (Model/ArgBind): bind_agrees_partial - for EVERY grammatical signature (any number of '
+         'positional parameters, defaults, *args, keyword-only parameters, **kwargs) and EVERY call with distinct '
+         'keywords that CPython accepts, bindJ (statement-by-statement transcription of '
+         'param.py:get_executed_param_names_and_issues with its PushBackIterator, instantiated with constants read '
+         'from the source) binds every parameter to exactly what CPython binds (bindPy); proved by induction over '
+         'the parameter loop with an invariant on the iterator / keys_used / non_matching_keys; hypothesis '
+         'kwsAvoidStarNames is forced (bind_agrees_full_witness: `def f(**kw)` / `f(kw=A)`, replayed on the real '
+         'code); bind_best_effort, bindJ_total, bind_without_push_back_loses_keyword, bind_source_is_modelled. '
+         'Tie: the real function = bindJ and CPython = bindPy, both exact, on all small signatures x calls.',
     note='Modelled not verified: only the PyCore fragment is under the theorem (no loops, attribute writes outside __init__, '
          'generators, decorators, containers other than tuples, multi-module). The pretty-printer of the harness '
          'and the name<->index mapping are trusted. Outside the fragment: nothing is claimed.',
@@ -220,6 +237,291 @@ def analyse_argbind(seed):
     return out
 
 
+# ------------------------------------------------------------------ stream `bind`
+
+def _real_bindings(sig, calls):
+    """runs the REAL get_executed_param_names_and_issues for every call of one signature, the way
+    jedi itself reaches it (inference/syntax_tree.py:infer_trailer builds TreeArguments for the
+    arglist, the callee is inferred to a FunctionValue).  Every bound lazy value is identified by
+    the source position of its tree node."""
+    import jedi
+    from gen import argbind as A
+    from jedi.inference import arguments as J
+    from jedi.inference.param import get_executed_param_names_and_issues
+    from jedi.inference.lazy_value import LazyTreeValue, LazyKnownValue, LazyUnknownValue
+    from jedi.inference.value import iterable
+    src, first = A.bind_module(sig, calls)
+    script = jedi.Script(src)
+    context = script._get_module_context()
+    module = script._module_node
+    stmts = {st.start_pos[0]: st for st in module.children}
+    out = []
+    fv = None
+    for ci, call in enumerate(calls):
+        try:
+            expr = stmts[first + ci].children[0]
+            name, trailer = expr.children
+            node = trailer.children[1]
+            if node == ')':
+                node = None
+            arg_ids = {}
+            if node is not None:
+                els = [c for c in node.children if c != ','] if node.type == 'arglist' else [node]
+                for i, el in enumerate(els):
+                    arg_ids[el.start_pos] = i
+                    if el.type == 'argument':
+                        arg_ids[el.children[2].start_pos] = i
+            if fv is None:
+                # inferred once per module: jedi answers NO_VALUES after 300 inferences of one name
+                fvs = list(context.infer_node(name))
+                assert len(fvs) == 1, fvs
+                fv = fvs[0]
+            args = J.TreeArguments(script._inference_state, context, node, trailer)
+            res, issues = get_executed_param_names_and_issues(fv, args)
+
+            def ident(lv, pname=None):
+                if isinstance(lv, LazyUnknownValue):
+                    return ['unknown']
+                if isinstance(lv, LazyTreeValue):
+                    n = lv.data
+                    if n.start_pos[0] == first + ci and n.start_pos in arg_ids:
+                        return ['arg', arg_ids[n.start_pos]]
+                    par = n.parent
+                    if par is not None and par.type == 'param' and par.default is n and \
+                            par.name.value == pname:
+                        return ['default']
+                    return ['other', repr(n)]
+                if isinstance(lv, LazyKnownValue):
+                    v = lv.data
+                    if isinstance(v, iterable.FakeTuple):
+                        return ['tuple', [ident(x)[-1] if ident(x)[0] == 'arg' else repr(ident(x))
+                                          for x in v._lazy_value_list]]
+                    if isinstance(v, iterable.FakeDict):
+                        return ['dict', [[k, ident(x)[-1] if ident(x)[0] == 'arg' else repr(ident(x))]
+                                         for k, x in v._dct.items()]]
+                return ['other', repr(lv)]
+            env = []
+            for r in res:
+                b = ident(r._lazy_value, r.string_name)
+                if b == ['default'] and not r._is_default:
+                    b = ['other', 'default-not-flagged']
+                env.append([r.string_name, b])
+            iss = []
+            for it in issues:
+                if it is None:
+                    iss.append(['none'])
+                    continue
+                kind = {'type-error-too-few-arguments': 'too-few', 'type-error-too-many-arguments': 'too-many',
+                        'type-error-multiple-values': 'multiple-values',
+                        'type-error-keyword-argument': 'unexpected-keyword'}.get(it.name, it.name)
+                if kind == 'too-many':
+                    iss.append([kind, arg_ids.get(tuple(it._start_pos), -1)])
+                elif kind in ('multiple-values', 'unexpected-keyword'):
+                    iss.append([kind, it.message.split("'")[1]])
+                else:
+                    iss.append([kind])
+            out.append({'env': env, 'issues': iss})
+        except Exception as e:
+            out.append({'raised': '%s@%s' % common.exc_site(e)})
+    return out
+
+
+def _bind_oracle(sig, call, py_env):
+    """the property itself on one signature/call: execute the program, Script.infer on every
+    observable of the binding (each parameter, each element of *args, each value of **kwargs)"""
+    import jedi
+    from gen import argbind as A
+    obs = A.observables(sig, call, py_env)
+    src, probes, class_line = A.oracle_program(sig, call, obs)
+    g = {'__name__': '__argbind__'}
+    try:
+        exec(compile(src, '<bind>', 'exec'), g)
+    except Exception as e:
+        return [{'src': src, 'skipped': type(e).__name__}]
+    recs = []
+    for (name, line), o in zip(probes, obs):
+        cn = type(g[name]).__name__
+        if cn in class_line:
+            rt = [cn, class_line[cn]]
+        elif cn in ('tuple', 'dict'):
+            rt = [cn, None]
+        else:
+            continue
+        rec = {'src': src, 'line': line, 'obs': o, 'runtime': rt, 'jedi': None, 'raised': None}
+        try:
+            ds = jedi.Script(src).infer(line, 0)
+            rec['jedi'] = sorted(([d.name, d.line] for d in ds), key=repr)
+        except Exception as e:
+            rec['raised'] = '%s@%s' % common.exc_site(e)
+        recs.append(rec)
+    return recs
+
+
+def analyse_bind(item):
+    """item = {sig, calls, oracle_k: how many accepted calls the direct oracle is run on (chosen with
+    oracle_seed), oracle_all}"""
+    from gen import argbind as A
+    sig, calls = item['sig'], item['calls']
+    py = A.cpython_bind(sig, calls)
+    real = _real_bindings(sig, calls)
+    oracle = {}
+    accepted = [i for i in range(len(calls)) if py[i] is not None]
+    if item.get('oracle_all'):
+        chosen = accepted
+    else:
+        import random
+        rng = random.Random(item.get('oracle_seed', ''))
+        chosen = rng.sample(accepted, min(len(accepted), item.get('oracle_k', 0)))
+    for i in chosen:
+        oracle[str(i)] = _bind_oracle(sig, calls[i], py[i])
+    return {'py': py, 'real': real, 'oracle': oracle}
+
+
+def oracle_bind(item):
+    """failing-input search on one signature/call: item = {sig, call}"""
+    from gen import argbind as A
+    py = A.cpython_bind(item['sig'], [item['call']])[0]
+    return [] if py is None else _bind_oracle(item['sig'], item['call'], py)
+
+
+def bind_items(ctx):
+    """signatures x calls of stream `bind`: corpus, ALL small signatures x ALL small calls
+    (accepted and rejected by CPython alike), random larger ones"""
+    import glob
+    import json
+    import os
+    from gen import argbind as A
+    rng = ctx.subrng('bind')
+    items = []
+    for p in sorted(glob.glob(os.path.join(common.CORPUS_DIR, 'C02', 'bind*.json'))):
+        with open(p, encoding='utf-8') as f:
+            for c in json.load(f).get('cases', []):
+                items.append({'sig': c['sig'], 'calls': c['calls'], 'oracle_all': True, 'src': 'corpus'})
+    # (max pos params, max kw-only params, max positional args, max keyword args)
+    scopes = [(1, 1, 2, 2)] if ctx.quick else [(2, 2, 3, 2), (1, 1, 3, 3), (3, 0, 4, 1)]
+    seen = set()
+    for mp, mk, ma, mkw in scopes:
+        for sig in A.enum_signatures(mp, mk):
+            calls = []
+            for c in A.enum_calls(sig, ma, mkw):
+                key = json.dumps([sig, c])
+                if key not in seen:
+                    seen.add(key)
+                    calls.append(c)
+            if calls:
+                items.append({'sig': sig, 'calls': calls, 'oracle_k': ctx.size(4, 12), 'src': 'exhaustive',
+                              'oracle_seed': '%s-%d' % (ctx.seed, len(items))})
+    for _ in range(ctx.size(60, 1500)):
+        sig = A.random_signature(rng)
+        calls = []
+        for _ in range(10):
+            c = A.random_call(rng, sig)
+            if c not in calls:
+                calls.append(c)
+        items.append({'sig': sig, 'calls': calls, 'oracle_k': 2, 'src': 'random',
+                      'oracle_seed': '%s-%d' % (ctx.seed, len(items))})
+    return items
+
+
+def judge_bind_oracle(ctx, recs, sig, call, how):
+    """the direct oracle on one signature/call; returns True when the property fails there"""
+    from gen import argbind as A
+    failed = False
+    shape = 'keyword-spelled-like-star-param' if A.kw_spelled_like_star(sig, call) else 'argument-binding'
+    for rec in recs:
+        if 'skipped' in rec:
+            continue
+        if rec['raised']:
+            ctx.count('raised', (rec['src'], rec['line']), nontrivial=False, bucket=rec['raised'])
+            continue
+        rt = rec['runtime']
+        ctx.count('argbind', (rec['src'], rec['line']), nontrivial=True, bucket='bind:' + rt[0][:1],
+                  sample={'source': rec['src'], 'line': rec['line'], 'runtime': rt, 'jedi': rec['jedi']})
+        case = {'source': rec['src'], 'line': rec['line'], 'column': 0, 'shape': shape,
+                'signature': A.bind_sig_text(sig), 'call': A.bind_call_text(call), 'observed_expr': rec['obs']}
+        if rt not in rec['jedi']:
+            failed = ctx.fail('oracle', 'the class of the run-time value is not among the inferred definitions',
+                              case, expected=rt, observed=rec['jedi'], how=how) or failed
+        elif rec['jedi'] != [rt]:
+            failed = ctx.fail('oracle', 'only one value can reach the expression but infer reports more',
+                              case, expected=[rt], observed=rec['jedi'], how=how) or failed
+    return failed
+
+
+def run_bind(ctx, answers, how):
+    """stream `bind`: (a) REAL get_executed_param_names_and_issues vs Model.ArgBind.bindJ (exact);
+    (b) CPython itself vs Model.ArgBind.bindPy (exact, TypeError <-> none); the theorem's claim
+    checked directly (real jedi binding = CPython binding under its hypotheses); the direct
+    oracle on a sample of the accepted calls and on every disagreement"""
+    from gen import argbind as A
+    items = ctx.bind_items
+    outs = ctx.bind_outs
+    k = 0
+    suspects = []
+    n_acc = n_thm = 0
+    for it, out in zip(items, outs):
+        sig = it['sig']
+        for ci, call in enumerate(it['calls']):
+            ans = None if answers is None else answers[k]
+            k += 1
+            real = out['real'][ci]
+            py = out['py'][ci]
+            key = (A.bind_sig_text(sig), A.bind_call_text(call))
+            nontrivial = bool(sig) and (call[0] + len(call[1]) > 0)
+            feat = ''.join(sorted({p[1][0] for p in sig})) + '/' + ('acc' if py is not None else 'rej')
+            if 'raised' in real:
+                ctx.count('raised', key, nontrivial=False, bucket=real['raised'])
+                ctx.tie_broken('correspondence:bind', short({'signature': key[0], 'call': key[1], 'real': real}, 800))
+                suspects.append((sig, call))
+                continue
+            if ans is not None:
+                if 'error' in ans:
+                    raise common.InfraError('driver: %r' % ans)
+                mj = A.bind_decode(sig, ans['jedi'])
+                mpy = A.bind_decode(sig, ans['py'])
+                names = {i: p[0] for i, p in enumerate(sig)}
+                names.update({100 + j: x for j, x in enumerate(A.FOREIGN)})
+                mi = sorted([i[0], names[i[1]]] if i[0] in ('multiple-values', 'unexpected-keyword') else i
+                            for i in ans['issues'])
+                ctx.count('bind', key, nontrivial=nontrivial, bucket=feat,
+                          sample={'signature': key[0], 'call': key[1], 'jedi': real['env'], 'model': mj})
+                if real['env'] != mj or sorted(real['issues']) != mi:
+                    ctx.tie_broken('correspondence:bind', short(
+                        {'signature': key[0], 'call': key[1], 'jedi': real, 'model': mj, 'model_issues': mi}, 1500))
+                    suspects.append((sig, call))
+                ctx.count('bindpy', key, nontrivial=nontrivial, bucket='acc' if py is not None else 'rej')
+                if py != mpy:
+                    # the specification model disagrees with CPython: model bug
+                    ctx.tie_broken('correspondence:bindpy', short(
+                        {'signature': key[0], 'call': key[1], 'cpython': py, 'model': mpy}, 1500))
+            # the theorem's claim, on the real things: whenever CPython accepts the call and no
+            # keyword is spelled like *args/**kwargs, jedi binds what CPython binds
+            # (and, not under a theorem: reports no issue)
+            if py is not None:
+                n_acc += 1
+                if not A.kw_spelled_like_star(sig, call):
+                    n_thm += 1
+                    if real['env'] != py:
+                        ctx.tie_broken('theorem-vs-implementation:bind_agrees_partial', short(
+                            {'signature': key[0], 'call': key[1], 'jedi': real, 'cpython': py}, 1500))
+                        if (sig, call) not in suspects:
+                            suspects.append((sig, call))
+                    elif real['issues']:
+                        ctx.tie_broken('expectation:accepted-call-reports-no-issue', short(
+                            {'signature': key[0], 'call': key[1], 'jedi': real}, 1500))
+                        if (sig, call) not in suspects:
+                            suspects.append((sig, call))
+        for ci, recs in out['oracle'].items():
+            judge_bind_oracle(ctx, recs, sig, it['calls'][int(ci)], how)
+    ctx.notes.append('bind: %d signature/call pairs, %d accepted by CPython, %d under the hypotheses of '
+                     'bind_agrees_partial' % (k, n_acc, n_thm))
+    # failing-input search on the disagreements: the property itself on that very signature/call
+    if suspects:
+        todo = [{'sig': sg, 'call': c} for sg, c in suspects[:80]]
+        for t, recs in zip(todo, common.parallel_map('props.c02', 'oracle_bind', todo)):
+            judge_bind_oracle(ctx, recs, t['sig'], t['call'], how)
+
+
 def programs(ctx):
     rng = ctx.subrng('gen')
     n = ctx.size(300, 8000)
@@ -227,11 +529,19 @@ def programs(ctx):
 
 
 def run(ctx):
+    from concurrent.futures import ThreadPoolExecutor
+    from gen import argbind as A
     progs = programs(ctx)
-    outs = common.parallel_map('props.c02', 'analyse', progs)
     encs = [encode(p) for p in progs]
     reqs = [{'op': 'run', 'prog': e[0], 'fuel': FUEL} for e in encs]
-    answers = common.run_driver_parallel('C02', reqs) if ctx.model_ok else [None] * len(progs)
+    ctx.bind_items = bind_items(ctx)
+    reqs += [A.bind_encode(it['sig'], c) for it in ctx.bind_items for c in it['calls']]
+    # the Lean driver (one call) runs while the real code is exercised in worker processes
+    with ThreadPoolExecutor(1) as pool:
+        fut = pool.submit(common.run_driver_parallel, 'C02', reqs) if ctx.model_ok else None
+        outs = common.parallel_map('props.c02', 'analyse', progs)
+        ctx.bind_outs = common.parallel_map('props.c02', 'analyse_bind', ctx.bind_items)
+        answers = fut.result() if fut is not None else [None] * len(progs)
     how = 'jedi.Script(source).infer(line, 0) vs executing the program (harness/gen/pycore.py:run)'
     for out, ans, (enc, nm), prog in zip(outs, answers, encs, progs):
         src = out['src']
@@ -284,7 +594,8 @@ def run(ctx):
             elif m['exec'] is not None and out['err'] is None:
                 ctx.tie_broken('correspondence:exec', short({'source': src, 'line': rec['line'],
                                                              'cpython': 'probe not reached', 'model': m['exec']}, 1500))
-    # ---- beyond the fragment: argument binding, judged by the direct oracle only
+    run_bind(ctx, answers[len(progs):] if ctx.model_ok else None, how)
+    # ---- beyond the fragment: argument binding of methods / lambdas, judged by the direct oracle only
     seeds = ['%s-argbind-%d' % (ctx.seed, i) for i in range(ctx.size(40, 800))]
     for recs in common.parallel_map('props.c02', 'analyse_argbind', seeds):
         for rec in recs:
@@ -304,8 +615,11 @@ def run(ctx):
                 ctx.fail('oracle', 'only one value can reach the expression but infer reports more',
                          case, expected=[rt], observed=rec['jedi'], how=how)
     ctx.obligations['assumptions'] = [
-        'stream argbind (argument binding with defaults, *args, keyword-only, **kwargs) has no Lean model: it is '
-        'the direct oracle on code the PyCore fragment does not cover',
+        'argument binding: the model covers calls without */** unpacking to functions whose parameters are '
+        'plain, *args, keyword-only or **kwargs (no positional-only `/`); how a bound lazy value is then inferred '
+        '(FakeTuple / FakeDict indexing, defaults evaluated in the defining context), methods (bound self) and '
+        'lambdas are covered by the direct oracle only; one calling node per call; keyword names are non-empty '
+        '(`if key:` is modelled as `key is not None`)',
         'PyCore programs are generated in SSA form (every module-level name bound once) with parameter, attribute '
         'and module name pools disjoint; the abstract program, its printed source and its encoding for the model '
         'come from harness/gen/pycore.py and harness/props/c02.py:encode (trusted)',
